@@ -202,14 +202,15 @@ pub mod unit {
         &&& (g.upper_bound matches UpperBound::Inclusive(x) ==> is_whole(dec_int(x)))
         &&& valid_general(g)
     }
-    pub open spec fn valid_mf(c: ManifestResourceConstraint) -> bool {
+    /// validity of a manifest constraint for fungible use; `as_documented` selects valid_f_doc over valid_f_checked
+    pub open spec fn valid_mf(c: ManifestResourceConstraint, as_documented: bool) -> bool {
         match c {
             ManifestResourceConstraint::NonZeroAmount => true,
             ManifestResourceConstraint::ExactAmount(x) => dec_int(x) >= 0,
             ManifestResourceConstraint::AtLeastAmount(x) => dec_int(x) >= 0,
             ManifestResourceConstraint::ExactNonFungibles(_) => false,
             ManifestResourceConstraint::AtLeastNonFungibles(_) => false,
-            ManifestResourceConstraint::General(g) => valid_f_checked(g),
+            ManifestResourceConstraint::General(g) => if as_documented { valid_f_doc(g) } else { valid_f_checked(g) },
         }
     }
     pub open spec fn valid_mnf(c: ManifestResourceConstraint) -> bool {
@@ -266,6 +267,13 @@ pub mod unit {
             vstd::set_lib::lemma_len_subset(g0.required_ids@, al@);
         }
     }
+    /// FINDING witness: for a constraint that passes the fungible validity check with an empty allowlist and a
+    /// positive upper bound, the tightening done by normalize changes the accepted fungible amounts
+    /// (the old upper bound is accepted before and rejected after).
+    pub proof fn lemma_fungible_gap(g0: GeneralResourceConstraint, g1: GeneralResourceConstraint)
+        requires tighten_rel(g0, g1), valid_f_checked(g0), !valid_f_doc(g0)
+        ensures sat_general_f(g0, upper_eq(g0.upper_bound)), !sat_general_f(g1, upper_eq(g0.upper_bound)), upper_eq(g0.upper_bound) > 0
+    {}
     pub open spec fn exact_rel(g1: GeneralResourceConstraint, g2: GeneralResourceConstraint) -> bool {
         &&& g2.lower_bound == g1.lower_bound
         &&& g2.upper_bound == g1.upper_bound
@@ -355,7 +363,7 @@ pub mod unit {
     /// a constraint declared valid for fungible use accepts some representable non-negative amount
     /// (for a general constraint: `lower_bound.equivalent_decimal()`)
     pub proof fn lemma_valid_fungible_satisfiable(c: ManifestResourceConstraint)
-        requires valid_mf(c)
+        requires valid_mf(c, false)
         ensures witness_f(c) >= 0, dec_in_range(witness_f(c)), sat_f(c, witness_f(c)),
     {}
 
@@ -543,7 +551,11 @@ pub mod unit {
         @*/
         /*@fn radix-common/src/data/manifest/model/manifest_resource_assertion.rs :: impl GeneralResourceConstraint :: fn is_valid_for_fungible_use
         @sig
-            ensures ret == valid_f_checked(*self)
+            // FINDING (see props.frag.json): the code does not check the documented clause "an empty
+            // allowlist is acceptable only if the upper bound is zero"; the contract brackets the result
+            // between the documented rule and the part of it that is checked, so it holds before and after a fix.
+            ensures valid_f_doc(*self) ==> ret,
+                    ret ==> valid_f_checked(*self),
         @*/
         /*@fn radix-common/src/data/manifest/model/manifest_resource_assertion.rs :: impl GeneralResourceConstraint :: fn is_valid_for_non_fungible_use
         @sig
@@ -604,11 +616,13 @@ pub mod unit {
     impl ManifestResourceConstraint {
         /*@fn radix-common/src/data/manifest/model/manifest_resource_assertion.rs :: impl ManifestResourceConstraint :: fn is_valid_for
         @sig
-            ensures ret == (if resource_address.fungible() { valid_mf(*self) } else { valid_mnf(*self) })
+            ensures resource_address.fungible() ==> (valid_mf(*self, true) ==> ret) && (ret ==> valid_mf(*self, false)),
+                    !resource_address.fungible() ==> ret == valid_mnf(*self),
         @*/
         /*@fn radix-common/src/data/manifest/model/manifest_resource_assertion.rs :: impl ManifestResourceConstraint :: fn is_valid_for_fungible_use
         @sig
-            ensures ret == valid_mf(*self)
+            ensures valid_mf(*self, true) ==> ret,
+                    ret ==> valid_mf(*self, false),
         @*/
         /*@fn radix-common/src/data/manifest/model/manifest_resource_assertion.rs :: impl ManifestResourceConstraint :: fn is_valid_for_non_fungible_use
         @sig
@@ -625,10 +639,8 @@ pub mod unit {
             ensures ret is Ok <==> sat_nf(self, ids@),
                     ret matches Err(e) ==> non_fungible_err(self, ids@, e),
         @before <<if let Some(disallowed_id)>> #1
-                proof { lemma_difference_empty(expected_exact_ids@, ids@); }
-        @after <<ids.difference(&expected_exact_ids)>> #1
-                proof { lemma_difference_empty(ids@, expected_exact_ids@); }
-        @after <<expected_at_least_ids.difference(ids)>> #1
+                proof { lemma_difference_empty(expected_exact_ids@, ids@); lemma_difference_empty(ids@, expected_exact_ids@); }
+        @before <<if let Some(missing_id)>> #2
                 proof { lemma_difference_empty(expected_at_least_ids@, ids@); }
         @*/
     }
